@@ -18,6 +18,7 @@ Sz == [host |-> "", path |-> Svc, zero |-> TRUE]
 MCSlotsW == {S1, Sz}
 \* b1 serves the route; then all traffic is moved to b2 while b1 stays in the table with weight 0
 MCTablesWeight == {[s \in Slots |-> IF s.zero THEN "" ELSE "b1"], [s \in Slots |-> IF s.zero THEN "b1" ELSE "b2"]}
+MCTablesFW == MCTablesWeight \cup {[s \in Slots |-> ""]}
 MCSlots2 == {S1, S2}
 MCSlotsH == {S1, S2, S4, S5}
 MCSlots4 == {S1, S2, S3, S4, S5}
@@ -85,6 +86,15 @@ AllKinds(H, M, HD, TR, C, G) ==
     {c \in Unary(H, M, HD, TR, C) \cup NoRoute(H, M) \cup CStream(H, M, HD, TR, C)
            \cup SStream(H, M, HD, TR, C) \cup Bidi(H, M, HD, TR, C, G) : WellFormed(c)}
 
+\* message size limits as a configuration dimension: proxy.grpcmaxrxmsgsize bounds what the proxy accepts,
+\* proxy.grpcmaxtxmsgsize what it sends to the caller.  With rx > tx a request "qB" whose size lies between the
+\* two is accepted from the caller and therefore has to reach the backend like any other.
+MCCallsLimits ==
+    {Mk("unary", h, "one", <<"qB">>, OneIfOK(c), "echo", FALSE, "set", "some", c) : h \in {"", "h1"}, c \in {0, 13}}
+    \cup {Mk("cstream", "", "one", q, <<"r1">>, "late", FALSE, "set", "some", 0) : q \in {<<"qB">>, <<"q1", "qB">>, <<"qB", "q2">>}}
+    \cup {Mk("bidi", "", "one", q, <<"r1", "r2">>, g, FALSE, "send", "some", 0) : q \in {<<"qB", "q2">>, <<"q1", "qB">>}, g \in {"echo", "late"}}
+    \cup {Mk("sstream", "", "one", <<"qB">>, <<"r1", "r2">>, "echo", FALSE, "set", "some", 0)}
+
 \* final statuses: OK; the backend's own NotFound; retryable-looking ones (Unavailable, ResourceExhausted)
 \* -- which, with no response and no header, are answered "trailers-only"; Internal; a code outside the enum
 Codes == {0, 5, 8, 13, 14, 42}
@@ -92,10 +102,12 @@ CodesQuick == {0, 5, 14, 42}
 \* per-call universe: everything about ONE call
 MCCallsFull  == AllKinds({"", "h1", "h2"}, {"none", "one", "multi"}, {"none", "set", "send"}, {"none", "some"}, Codes,
                          {"eager", "echo", "late"})
+                \cup MCCallsLimits
                 \cup Health({"", "h1"}, {"one"}, {"none", "set"}, {"some"}, {0, 13, 14})
                 \cup Unary(MCOddHosts, {"one", "multi"}, {"set"}, {"some"}, {0, 14})
                 \cup {c \in Bidi(MCOddHosts, {"one"}, {"send"}, {"some"}, {0}, {"echo"}) : ~c.early /\ Len(c.reqs) = 1 /\ Len(c.resps) = 1}
 MCCallsQuick == AllKinds({"", "h1"}, {"none", "multi"}, {"none", "set"}, {"some"}, CodesQuick, {"eager", "echo", "late"})
+                \cup MCCallsLimits
                 \cup Unary(MCOddHosts, {"one"}, {"set"}, {"some"}, {0})
                 \cup Health({"", "h1"}, {"one"}, {"none", "set"}, {"some"}, {0, 14})
 \* history universe: what matters for routing and the pool (who is called, does it reach a backend)
@@ -113,14 +125,6 @@ MCBurstCalls == Unary({""}, {"multi"}, {"set"}, {"some"}, {0})
                 \cup {c \in Bidi({"", "h1"}, {"one"}, {"send"}, {"some"}, {0, 13}, {"echo"}) :
                          ~c.early /\ Len(c.reqs) = 1 /\ Len(c.resps) = 1}
 MCBurstSizes == {2, 3}
-\* message size limits as a configuration dimension: proxy.grpcmaxrxmsgsize bounds what the proxy accepts,
-\* proxy.grpcmaxtxmsgsize what it sends to the caller.  With rx > tx a request "qB" whose size lies between the
-\* two is accepted from the caller and therefore has to reach the backend like any other.
-MCCallsLimits ==
-    {Mk("unary", h, "one", <<"qB">>, OneIfOK(c), "echo", FALSE, "set", "some", c) : h \in {"", "h1"}, c \in {0, 13}}
-    \cup {Mk("cstream", "", "one", q, <<"r1">>, "late", FALSE, "set", "some", 0) : q \in {<<"qB">>, <<"q1", "qB">>, <<"qB", "q2">>}}
-    \cup {Mk("bidi", "", "one", q, <<"r1", "r2">>, g, FALSE, "send", "some", 0) : q \in {<<"qB", "q2">>, <<"q1", "qB">>}, g \in {"echo", "late"}}
-    \cup {Mk("sstream", "", "one", <<"qB">>, <<"r1", "r2">>, "echo", FALSE, "set", "some", 0)}
 \* flapping: a backend leaves the table, the clean-up runs, it comes back and is called while the old
 \* connection is still waiting to be closed; the call is a stream that stays open across that moment
 MCCallsFlap == {c \in Bidi({""}, {"one"}, {"send"}, {"some"}, {0}, {"echo"}) : ~c.early /\ Len(c.reqs) = 2 /\ Len(c.resps) = 2}
